@@ -6,14 +6,14 @@ GPS == <<"v0", "v1", "v2", "v3">>
 GValSeq == <<"v0", "v1", "v2", "v3">>
 E(hs, tail) == [hs |-> hs, tail |-> tail]
 Tails0 == {"newheight", "propose", "prop", "prop_part0", "block", "block_pv2", "block_polka", "block_polka_pc2",
-           "prop_polka", "polka_noprop", "nilpolka", "nilpolka_pcnil", "commit_noblock", "commit_part0"}
+           "prop_polka", "polka_noprop", "nilpolka", "nilpolka_pcnil", "commit_noblock", "commit_part0", "block_pv2_wait", "ahead_pv1"}
 TailsR == {"r1", "r1_prop", "r1_block_pv2", "r1_commit_noblock", "r1v", "r1v_reprop", "r1v_reprop_block", "r1_reprop_nopol",
            "r2", "r2_pv2"}
 TailsD == {"decided_strag", "decided_eq", "eq_nil"}
 \* quick: a cross-section of every family
-QuickNode == {E(0, t) : t \in {"prop_part0", "block_pv2", "block_polka_pc2", "polka_noprop", "commit_part0", "r1_block_pv2", "r1v_reprop_block", "decided_eq"}}
+QuickNode == {E(0, t) : t \in {"prop_part0", "block_pv2", "block_polka_pc2", "polka_noprop", "commit_part0", "r1_block_pv2", "r1v_reprop_block", "decided_eq", "ahead_pv1"}}
              \cup {E(1, t) : t \in {"newheight", "block_pv2"}} \cup {E(2, t) : t \in {"propose", "decided_strag"}}
-QuickPeer == {E(0, t) : t \in {"newheight", "propose", "prop", "block_pv2", "nilpolka", "commit_noblock", "r1", "r1_reprop_nopol", "r2", "eq_nil"}}
+QuickPeer == {E(0, t) : t \in {"newheight", "propose", "prop", "block_pv2", "nilpolka", "commit_noblock", "r1", "r1_prop", "r1_reprop_nopol", "r2", "eq_nil", "block_pv2_wait"}}
              \cup {E(1, t) : t \in {"newheight", "prop_part0"}}
 FullNode == {E(0, t) : t \in Tails0 \cup TailsR \cup TailsD} \cup {E(1, t) : t \in Tails0 \cup {"r1_block_pv2", "decided_strag", "decided_eq"}}
             \cup {E(2, t) : t \in {"newheight", "propose", "block_pv2", "commit_part0", "decided_strag"}}
